@@ -6,7 +6,19 @@ accounting by the stateless engine and as the deduplication key of the explicit-
 """
 from math import isinf
 
+import hashlib
+
 INF = float("inf")
+
+
+SHIFT = 1000003.0
+
+
+def digest(obj):
+    """64-bit digest of a canonical tuple.  Python's hash(-1.0) == hash(-2.0) == -2 (also for ints), so states that
+    differ only in such an offset would collide systematically; canon() therefore shifts every relative date by
+    SHIFT (an injective re-encoding), after which the built-in tuple hash is adequate and fast."""
+    return hash(obj)
 
 
 def _rel(d, now):
@@ -18,7 +30,7 @@ def _rel(d, now):
             return "nan"
         if d == INF:
             return INF
-        return float(d) - now
+        return float(d) - now + SHIFT
     except TypeError:
         return repr(d)
 
